@@ -205,7 +205,7 @@ pub async fn replay_corpus(out: &mut Out) {
 pub async fn observed_streams(rng: &mut Rng, out: &mut Out, stats: &mut serde_json::Map<String, serde_json::Value>) {
     let model = obs_model();
     let mut run = ObsRun { inst: Inst::start(&model).await, model: model.clone(), restarts: 0, calls: 0 };
-    run.inst.app.mutate(BASE_MUTATIONS[0], None).await.unwrap();
+    setup_mutate(&run.inst.app, BASE_MUTATIONS[0], None).await;
     let mut accepted = [0usize; 8]; let mut total = [0usize; 8];
 
     // ---- measured, not judged: search() hands the text to FTS5 MATCH as one phrase of trigrams; with a
@@ -245,7 +245,7 @@ pub async fn observed_streams(rng: &mut Rng, out: &mut Out, stats: &mut serde_js
     let room_id = {
         let mut p = Parameters::default();
         p.add("user_id", base64_encode(&run.inst.vk)).unwrap();
-        let room = run.inst.app.mutate_raw(r#"mutate { sys.Room{ admin:[{verif_key:$user_id}] authorisations:[{ name:"g" rights:[{entity:"*" mutate_self:true mutate_all:true}] users:[{verif_key:$user_id}] }] } }"#, Some(p)).await.unwrap();
+        let room = setup_mutate(&run.inst.app, r#"mutate { sys.Room{ admin:[{verif_key:$user_id}] authorisations:[{ name:"g" rights:[{entity:"*" mutate_self:true mutate_all:true}] users:[{verif_key:$user_id}] }] } }"#, Some(p)).await;
         room.mutate_entities[0].node_to_mutate.id
     };
     let n_d = scale(120, 1600);
